@@ -62,6 +62,19 @@ class RecFile:
         self.closed = True
 
 
+STATES = {"steady": (3, 3), "to-empty": (1, 0), "from-empty": (0, 1), "grow": (1, 3)}
+
+
+def _resize(atoms, n):
+    """Bring the simulated system to n atoms (n == 0: an empty box, legal in a grand-canonical run)."""
+    from ase import Atoms
+
+    if len(atoms) > n:
+        del atoms[list(range(n, len(atoms)))]
+    while len(atoms) < n:
+        atoms.extend(Atoms("Cu", positions=[[0.7 + 1.3 * len(atoms), 1.2, 1.4]]))
+
+
 def _sim():
     from ase import Atoms
     from ase.calculators.lj import LennardJones
@@ -76,7 +89,16 @@ def _sim():
     return mc, atoms
 
 
-def pattern(kind, mode="w"):
+def _collapse(ops):
+    out = []
+    for o in ops:
+        if o[0] == "write" and out and out[-1][0] == "write":
+            continue
+        out.append(o)
+    return out
+
+
+def pattern(kind, mode="w", state="steady"):
     """Operations of the header (logger only) and of ONE observer call, from the current source.
     `mode` is the observer's mode argument (a user-supplied handle keeps whatever mode it was opened with)."""
     from quansino.io.logger import Logger
@@ -84,6 +106,8 @@ def pattern(kind, mode="w"):
     from quansino.io.trajectory import TrajectoryObserver
 
     mc, atoms = _sim()
+    n1, n2 = STATES[state]
+    _resize(atoms, n1)
     f = RecFile()
     if kind == "logger":
         obs = Logger(f, interval=1, mode=mode)
@@ -100,6 +124,7 @@ def pattern(kind, mode="w"):
     obs()
     first = [(o[0],) + tuple(o[1:]) if o[0] in ("seek", "truncate") else (o[0],) for o in f.ops]
     f.ops.clear()
+    _resize(atoms, n2)
     obs()
     second = [(o[0],) + tuple(o[1:]) if o[0] in ("seek", "truncate") else (o[0],) for o in f.ops]
     return header, first, second
@@ -199,15 +224,16 @@ def _same_chunks(a, b):
     return len(a) == len(b) and all(x[0] == y[0] and symx.same_term(x[1], y[1]) if symx.is_sym(x[1]) or symx.is_sym(y[1]) else x == y for x, y in zip(a, b))
 
 
-def sc_observer(V, kind="logger", mode="w", append_handle=False):
+def sc_observer(V, kind="logger", mode="w", append_handle=False, state="steady"):
     if V.mode != "sym":
-        return _real_crash(V, kind, mode, append_handle)
-    header, first, second = pattern(kind, mode)
+        return _real_crash(V, kind, mode, append_handle, state)
+    header, first, second = pattern(kind, mode, state)
     kinds2 = [o[0] for o in second]
     nw1 = sum(1 for o in first if o[0] == "write")
     nw2 = sum(1 for o in second if o[0] == "write")
-    info = f"{kind}:mode={mode}:append_handle={append_handle}:pattern={'/'.join(kinds2)}"
-    V.prove(first == second, "same-pattern-every-call", info=info)
+    info = f"{kind}:mode={mode}:append_handle={append_handle}:state={state}:pattern={'/'.join(kinds2)}"
+    # the number of write() calls of one record may depend on the number of atoms; everything else may not
+    V.prove(_collapse(first) == _collapse(second), "same-pattern-every-call", info=info)
     hdr = _doc_chunks("header", _sym_lens(V, "h", sum(1 for o in header if o[0] == "write")))
     prev = _doc_chunks("doc1", _sym_lens(V, "a", nw1))
     cur = _doc_chunks("doc2", _sym_lens(V, "b", nw2))
@@ -240,9 +266,9 @@ def sc_observer(V, kind="logger", mode="w", append_handle=False):
     if not crashed:
         V.prove(not fm.B, "every-call-ends-flushed", info=where)
         if kind == "restart":
-            V.prove(_same_chunks(D, cur), "restart-file==exactly-the-latest-document", info=where + f":file={[t for t, _ in D]}")
+            V.prove(nw2 >= 1 and _same_chunks(D, cur), "restart-file==exactly-the-latest-document", info=where + f":file={[t for t, _ in D]}")
         else:
-            V.prove(_same_chunks(D, initial + cur), "one-complete-record-appended-earlier-bytes-untouched", info=where + f":file={[t for t, _ in D]}")
+            V.prove(nw2 >= 1 and _same_chunks(D, initial + cur), "one-complete-record-appended-earlier-bytes-untouched", info=where + f":writes={nw2}:file={[t for t, _ in D]}")
         return
     if kind == "restart":
         ok = _same_chunks(D, prev) or _same_chunks(D, cur)
@@ -258,8 +284,9 @@ import json, os, sys, warnings
 warnings.simplefilter("ignore")
 sys.path.insert(0, %(root)r)
 from qverif.props import c16
-kind, path, crash_at, omode, hmode = %(kind)r, %(path)r, %(crash)d, %(omode)r, %(hmode)r
+kind, path, crash_at, omode, hmode, state = %(kind)r, %(path)r, %(crash)d, %(omode)r, %(hmode)r, %(state)r
 mc, atoms = c16._sim()
+n1, n2 = c16.STATES[state]
 class Proxy:
     def __init__(self, f): self.f = f; self.n = 0; self.armed = False
     def _tick(self):
@@ -283,12 +310,18 @@ elif kind == "trajectory":
     obs = TrajectoryObserver(atoms, f, interval=1, mode=omode)
 else:
     obs = RestartObserver(mc, f, interval=1, mode=omode)
-mc.run(2)          # grow/shrink the state a little
+if state == "steady":
+    mc.run(2)      # grow/shrink the state a little
+else:
+    c16._resize(atoms, n1)
 obs()              # call j-1, complete
 f.f.flush()
 with open(path) as fh: before = fh.read()
 with open(path + ".before", "w") as fh: fh.write(before)
-del atoms[[len(atoms) - 1]]   # the state shrinks before call j
+if state == "steady":
+    del atoms[[len(atoms) - 1]]   # the state shrinks before call j
+else:
+    c16._resize(atoms, n2)
 f.armed = True
 obs()              # call j, killed after `crash_at` operations (or completes)
 with open(path + ".completed", "w") as fh: fh.write("1")
@@ -296,13 +329,13 @@ os._exit(0)        # no implicit flush: whatever the observer left in the buffer
 '''
 
 
-def _real_crash(V, kind, mode="w", append_handle=False):
+def _real_crash(V, kind, mode="w", append_handle=False, state="steady"):
     import ase.io.jsonio as J
 
     c = V.int("crash_after_op", 0, None)
     with tempfile.TemporaryDirectory() as td:
         path = os.path.join(td, "out.txt")
-        code = _CHILD % {"root": ROOT, "kind": kind, "path": path, "crash": c, "omode": mode, "hmode": "a" if append_handle else "w"}
+        code = _CHILD % {"root": ROOT, "kind": kind, "path": path, "crash": c, "omode": mode, "hmode": "a" if append_handle else "w", "state": state}
         env = dict(os.environ)
         p = subprocess.run([sys.executable, "-c", code], capture_output=True, text=True, timeout=120, env=env)
         before = open(path + ".before").read() if os.path.exists(path + ".before") else None
@@ -343,8 +376,11 @@ def run(rep: Report):
         # handle opened with 'w' while the mode argument keeps its default 'a'
         for mode, app in (("w", False), ("a", True), ("a", False)):
             plan.append(("observer", dict(kind=k, mode=mode, append_handle=app), ("crash", "complete")))
+        # the system empties, refills from empty, or grows between the two calls
+        for st in ("to-empty", "from-empty", "grow"):
+            plan.append(("observer", dict(kind=k, mode="a", append_handle=True, state=st), ("complete",)))
     run_plan(rep, plan, SCENARIOS, opts)
-    rep.bounds = {"calls": "two consecutive calls j-1, j from an arbitrary well-formed file state (inductive)", "document lengths": "symbolic positive integers per write, independent for the two calls (growing and shrinking)", "crash point": "after any operation of call j", "persisted prefix of the buffer": "symbolic"}
+    rep.bounds = {"calls": "two consecutive calls j-1, j from an arbitrary well-formed file state (inductive)", "document lengths": "symbolic positive integers per write, independent for the two calls (growing and shrinking)", "crash point": "after any operation of call j", "persisted prefix of the buffer": "symbolic", "system sizes at the two calls": "3->3, 1->0 (empty box), 0->1, 1->3 atoms"}
     rep.assumptions = ["crash = process death: flushed bytes are durable, buffered bytes are lost except a prefix the I/O library may already have pushed", "seek and truncate flush the buffer first (Python io semantics)", "operation pattern taken from a real observer call on the current source; contents of a complete document are C07/C08's subject"]
     rep.stubs = ["RecFile recording stream", "FileModel"]
     rep.outside = ["power loss (no fsync model)", "validity of the content of a complete document", "binary/exclusive modes"]
